@@ -1,0 +1,28 @@
+//go:build verif
+// +build verif
+
+package gmtls
+
+import (
+	"crypto"
+	"crypto/ecdsa"
+	"errors"
+	"math/big"
+
+	"github.com/tjfoc/gmsm/sm2"
+)
+
+// Hook for the verification harness (build tag "verif" only; property C01, harness op tlssigv).
+
+// VerifHandshakeSig exposes verifyHandshakeSignature for a key on the SM2 curve: kind "ecdsa" is the
+// signatureECDSA branch with an *ecdsa.PublicKey (what x509 parsing yields for SM2 certificates), kind "sm2"
+// the signatureSM2 branch with an *sm2.PublicKey.
+func VerifHandshakeSig(kind string, x, y *big.Int, digest, sig []byte) error {
+	switch kind {
+	case "ecdsa":
+		return verifyHandshakeSignature(signatureECDSA, &ecdsa.PublicKey{Curve: sm2.P256Sm2(), X: x, Y: y}, crypto.Hash(0), digest, sig)
+	case "sm2":
+		return verifyHandshakeSignature(signatureSM2, &sm2.PublicKey{Curve: sm2.P256Sm2(), X: x, Y: y}, crypto.Hash(0), digest, sig)
+	}
+	return errors.New("unknown kind")
+}
